@@ -489,6 +489,9 @@ func c14Workflows(t *testing.T, r *vReport, idx *int64, root string) {
 						{"none", nil, nil, false}, {"required", req, reqSec, false}, {"all-recased", upperAll(allIn), upperAll(allSec), false},
 						{"extra-input", append(append([]string{}, req...), "zzin"), reqSec, false}, {"extra-secret", req, append(append([]string{}, reqSec...), "zzsec"), false},
 						{"inherit", req, nil, true},
+						// secrets: inherit waives secrets only; an undeclared input's value is still an
+						// expression position
+						{"inherit-no-inputs", nil, nil, true}, {"extra-input-expr", append(append([]string{}, req...), "zzexpr"), reqSec, false},
 					}
 					for i := range req {
 						sites = append(sites, site{"minus-input", append(append([]string{}, req[:i]...), req[i+1:]...), reqSec, false})
@@ -509,6 +512,9 @@ func c14Workflows(t *testing.T, r *vReport, idx *int64, root string) {
 								v := "abc"
 								if ty, ok := typeOf[strings.ToLower(k)]; ok {
 									v = okVal[ty]
+								}
+								if k == "zzexpr" {
+									v = "${{ env.NOT_ALLOWED_HERE }}"
 								}
 								w.WriteString("      " + k + ": " + v + "\n")
 							}
@@ -581,6 +587,17 @@ func c14Workflows(t *testing.T, r *vReport, idx *int64, root string) {
 							c14Compare(r, "undeclared-secret", fam, desc, caller, c14Set(errs, c14SecExtraRe), wExtraSec, rp)
 							c14Compare(r, "undeclared-output", fam, desc, caller, c14Set(errs, c14PropRe), wProp, rp)
 							c14Compare(r, "type-error", fam, desc, caller, c14Set(errs, c14TypeRe), nil, rp)
+							if st.name == "extra-input-expr" {
+								found := false
+								for _, e := range errs {
+									if strings.HasPrefix(e.Message, `context "env" is not allowed here`) {
+										found = true
+									}
+								}
+								if !found {
+									r.Violation(fam+":undeclared-input-value-unchecked", fmt.Sprintf("%s: the value of the undeclared input zzexpr (${{ env.NOT_ALLOWED_HERE }}) is not checked: no 'context \"env\" is not allowed here'; diagnostics: %v", desc, vDiagStrings(errs)), map[string]any{"desc": desc, "src": caller, "callee": callee})
+								}
+							}
 						}
 						r.Class(fmt.Sprintf("reusable-workflow site=%s missing=%d extra=%d", st.name, len(wMissIn)+len(wMissSec), len(wExtraIn)+len(wExtraSec)), len(wMissIn)+len(wMissSec)+len(wExtraIn)+len(wExtraSec) > 0)
 					}
@@ -697,7 +714,7 @@ func upperAll(ss []string) []string {
 func TestVerifC14(t *testing.T) {
 	r := vNewReport("C14")
 	defer r.Write(t)
-	r.Extra["rule"] = "every spec of the bundled popular-actions table x call sites {none, required, all, required minus each, one extra, re-cased} with references to every declared and one undeclared output; 343 local action interfaces (3 inputs over absent/optional/required/required+default/optional+default/required+empty default/required+falsy default) x 0-2 outputs x every subset of declared inputs + extra + re-cased; 256 reusable-workflow input interfaces (2 inputs over absent | type x required x default incl. empty and falsy defaults) x 7 secret sets (explicit / absent required key, empty body, both declaration orders) x 0-1 outputs x 6+ call sites (none, required, all re-cased, extra input, extra secret, inherit, minus each), interface derived from the file and from the AST (callee linted first in the same run); 3 types x 12 typed values; derivation agreement over 3 types x 6 spellings of required x 7 of default x 3 of a secret's required (literal and expression values) x 2 call sites. oracle = set arithmetic on the declared interface. class = (family, call site, expected report counts); non-trivial = something must be reported"
+	r.Extra["rule"] = "every spec of the bundled popular-actions table x call sites {none, required, all, required minus each, one extra, re-cased} with references to every declared and one undeclared output; 343 local action interfaces (3 inputs over absent/optional/required/required+default/optional+default/required+empty default/required+falsy default) x 0-2 outputs x every subset of declared inputs + extra + re-cased; 256 reusable-workflow input interfaces (2 inputs over absent | type x required x default incl. empty and falsy defaults) x 7 secret sets (explicit / absent required key, empty body, both declaration orders) x 0-1 outputs x 8+ call sites (none, required, all re-cased, extra input, extra secret, inherit, inherit without inputs, undeclared input holding an expression, minus each), interface derived from the file and from the AST (callee linted first in the same run); 3 types x 12 typed values; derivation agreement over 3 types x 6 spellings of required x 7 of default x 3 of a secret's required (literal and expression values) x 2 call sites. oracle = set arithmetic on the declared interface. class = (family, call site, expected report counts); non-trivial = something must be reported"
 	r.Extra["assumptions"] = []string{"for bundled actions the table itself is the declaration (its content is not frozen)", "assignability per docs/checks.md: string <- string|number, number <- number, boolean <- anything, anything <- any"}
 	root := vTempDir(t, "c14-")
 	if raw := vReplayInput(); raw != nil {
